@@ -182,7 +182,7 @@ def report(prop, tier, seed, t0, contracts, results, lemma_recs, validations, sp
                 if not confirmed and o.get("smt2") and any(f in o["smt2"] for f in ("OM", "DIM", "ORD3")):
                     # counterexample refinement (DESIGN 2.8): the model was found with opaque spec functions and is
                     # only a candidate; re-solve the VC with every definition revealed
-                    v2, m2 = RP.resolve_with_definitions(o["smt2"], timeout_ms=60000 if tier == "quick" else 300000)
+                    v2, m2 = RP.resolve_with_definitions(o["smt2"], timeout_ms=20000 if tier == "quick" else 300000)
                     rp["refined"] = v2
                     if v2 == "proved":
                         o["verdict"] = "proved"
@@ -206,6 +206,17 @@ def report(prop, tier, seed, t0, contracts, results, lemma_recs, validations, sp
                             rp["replay_error"] = f"{type(e).__name__}: {e}"
             except Exception as e:
                 rp["replay_error"] = f"{type(e).__name__}: {e}"
+            if not confirmed and hasattr(c, "probes") and o["verdict"] == "failed":
+                # the failed obligation gave no failing input of its own (e.g. an inductive step): look for one
+                # among the contract's canonical scenarios, natively
+                try:
+                    for pc in c.probes(case):
+                        if native(pc):
+                            confirmed = True
+                            rp["note"] = "failing input found among the contract's probe scenarios"
+                            break
+                except Exception as e:
+                    rp["probe_error"] = f"{type(e).__name__}: {e}"
         else:
             rp["note"] = "not replayed: replay budget of this run used by earlier failed obligations"
         rp["failing_input_found"] = confirmed
